@@ -17,7 +17,7 @@ RULE = (
     "wavelengths, a third of the cubes carrying 'y' / 'x' positions of their own), charge (array or clusters), pixel, signal (f16/32/64), image (uint8..uint64, values up to the dtype "
     "maximum, <= 2^53), scene and processed-data nodes; a snapshot probe runs last in every step and every writer "
     "snapshots the buckets before and after itself. The case is run with debug off in both result layouts and with debug "
-    "on; every slice, label, dtype, scene/data node and debug record is compared with the snapshots. Non-trivial: >=2 "
+    "on; every slice, label, dtype, scene/data node and debug record is compared with the snapshots. Exposures of 31..100 readouts (around and at multiples of 32 and 50) are enumerated on every run. Non-trivial: >=2 "
     "steps and a bucket whose planned value differs between steps; distinct by canonical JSON."
 )
 ASSUMPTIONS = [
@@ -83,6 +83,18 @@ def cases(draw, big_uint64=False):
         "start": start, "times": times, "non_destructive": draw(st.booleans()),
         "plan": plan,
     }
+
+
+def long_schedule_cases():
+    """Exposures of many readouts (the per-step results are merged as the exposure goes): counts around and at multiples of 32 and 50."""
+    out = []
+    for i, n in enumerate([31, 32, 33, 50, 64, 96, 100]):
+        dt = ["uint8", "uint16", "uint32", "uint64"][i % 4]
+        out.append({"det_type": ["CCD", "CMOS"][i % 2], "shape": [2, 3], "start": 0.0, "times": [float(k + 1) for k in range(n)], "non_destructive": bool(i % 2),
+                    "plan": {"image": {"dtype": dt, "values": [(7 * k) % 200 + 1 for k in range(n)]},
+                             "pixel": {"dtype": "float64", "values": [(3 * k) % 250 + 1 for k in range(n)]},
+                             "signal": {"dtype": "float32", "values": [None if k % 5 == 4 else (k % 100) + 1 for k in range(n)]}}})
+    return out
 
 
 def k4_probe_cases():
@@ -342,4 +354,5 @@ def plan(tier):
     return [
         Part(name="record", kind="gen", strategy=cases, examples=n),
         Part(name="k4_uint64_above_2^53", kind="enum", cases=k4_probe_cases, shards=1),
+        Part(name="record", kind="enum", cases=long_schedule_cases, label="long_schedules"),
     ]
